@@ -11,10 +11,13 @@
 
 `caps` (dict of bool): features that are only generated when a probe at the start of the check
 showed that the corresponding finding of another area is fixed on the tree under test:
+    lambda       A1  (a function literal does not redirect later `return` statements)
     fn_types     A3  (function type annotations keep their parameters)
     match_never  A5  (a match without default is not typed `never`)
 Every random choice comes from the `random.Random` passed in.
 """
+import re
+
 from gen import progs
 from gen.progs import T_INT, T_BOOL, T_STR, T_FLOAT, T_LINT, T_LSTR, T_OBJ, T_OINT
 
@@ -63,7 +66,7 @@ TYPED_VALUES = [
     ("?int", "none"), ("?int", "?5"), ("?str", '?"s"'), ("[[int]]", "[[1], [2, 3]]"), ("[?int]", "[?1, none]"),
     ("{ a: int, \"b c\": ?str }", 'new { a: 1, "b c": none }'), ("{ ? }", "new { ? }"), ("range", "1..=3"),
     ("[range]", "[1..2, 3..=4]"), ("{ x: { y: [bool] } }", "new { x: new { y: [true, false] } }"),
-    ("float", "2.5"), ("bool", "!false"), ("str", '"t" + "u"'), ("[str]", '["a", "\\n"]'), ("null", "null"),
+    ("float", "2.5"), ("bool", "!false"), ("str", '"t" + "u"'), ("[str]", '["a", "\\n"]'),
     ("??int", "??1"), ("{ \"fn\": int, k: str }", 'new { "fn": 1, k: "v" }'),
 ]
 
@@ -110,10 +113,8 @@ class PGen(progs.Gen):
         d = max(depth - 1, 0)
         kinds = ["objkeys", "typedlet", "nested", "match", "elseif", "anyobj", "cast", "ranges", "typedef", "compound",
                  "prefix", "chains", "spawn", "underscore", "grouped", "tryval", "strs", "matchstr", "blockval", "listobj"]
-        if self.caps.get("fn_types"):
-            kinds.append("lambda")
-        else:
-            kinds.append("lambda-call")
+        if self.caps.get("lambda"):
+            kinds.append("lambda" if self.caps.get("fn_types") else "lambda-call")
         if self.has_singleton:
             kinds += ["singleton"] * 2
         if self.has_lib:
@@ -153,7 +154,8 @@ class PGen(progs.Gen):
             if dflt:
                 arms.insert(r.randrange(len(arms) + 1), f"_ => println({self.atom(T_STR, scopes)})")
             sep = ", "
-            return [f"match {ctl} {{ {sep.join(arms)}{',' if r.random() < 0.3 else ''} }}"]
+            # the `;` matters: `match x { … } (y)` would parse as a call of the match expression
+            return [f"match {ctl} {{ {sep.join(arms)}{',' if r.random() < 0.3 else ''} }};"]
         if k == "matchstr":
             e = f'match {self.atom(T_STR, scopes)} {{ "a" | {str_lit(r)} => 1, "" => 2, _ => 3 }}'
             b = f"match {self.expr(T_BOOL, scopes, 0, pure=True)} {{ true => \"T\", false => \"F\", _ => \"?\" }}"
@@ -161,7 +163,7 @@ class PGen(progs.Gen):
         if k == "elseif":
             c1, c2 = self.expr(T_BOOL, scopes, 0, pure=True), self.expr(T_BOOL, scopes, 0, pure=True)
             return [f"let {v} = if {c1} {{ 1 }} else if {c2} {{ 2 }} else {{ 3 }};",
-                    f"if {c2} {{ println({v}) }} else if {c1} {{ println(\"b\") }}", f"println({v});"]
+                    f"if {c2} {{ println({v}) }} else if {c1} {{ println(\"b\") }};", f"println({v});"]
         if k == "lambda":
             return [f"let {v} = fn(a: int, _b: str) -> int {{ a * 2 }};", f"println({v}({self.atom(T_INT, scopes)}, \"s\"));"]
         if k == "lambda-call":
@@ -294,6 +296,8 @@ class PGen(progs.Gen):
 def generate(rng, caps=None, **kw):
     g = PGen(rng, caps=caps, **kw)
     src, mods = g.program()
+    # the position of an exception changes with the layout of the text: do not print it
+    src = re.sub(r", (e\d+)\.line, \1\.column", "", src)
     return src, mods, sorted(g.features)
 
 
@@ -389,20 +393,22 @@ class OptGen:
         if k == "match-default":
             return [f"match k {{ {r.choice([0, 1])} => {{"] + ind(self.body(d, in_loop, ret, force_div=True)) + \
                 [f"}}, {r.choice([2, 3])} | 4 => {{"] + ind(self.body(d, in_loop, ret, force_div=True)) + ["}, _ => {"] + \
-                ind(self.body(d, in_loop, ret, force_div=True)) + ["} }"]
+                ind(self.body(d, in_loop, ret, force_div=True)) + ["} };"]
         if k == "try":
             return ["try {"] + ind(self.body(d, False, ret, force_div=True, no_break=True)) + ["} catch _e {"] + \
                 ind(self.body(d, False, ret, force_div=True, no_break=True)) + ["}"]
         raise ValueError(k)
 
-    def body(self, depth, in_loop, ret, force_div=False, no_break=False):
+    def body(self, depth, in_loop, ret, force_div=False, no_break=False, no_div=False):
         """Statements of a block: live ones, then (maybe) a diverging one followed by dead code."""
         r = self.r
         lines = []
         for _ in range(r.randrange(0, 3)):
             lines += self.live()
             if depth > 0 and r.random() < 0.3:
-                lines += self.nested(depth - 1, in_loop and not no_break, ret)
+                lines += self.nested(depth - 1, in_loop and not no_break, ret, no_div=no_div)
+        if no_div:
+            return lines or [self.mark()]
         if force_div or r.random() < 0.5:
             lines += self.diverging(depth, in_loop and not no_break, ret)
             for _ in range(r.randrange(0, 3)):       # dead, but looks alive
@@ -412,7 +418,7 @@ class OptGen:
                 lines += self.diverging(0, in_loop and not no_break, ret)
         return lines
 
-    def nested(self, depth, in_loop, ret):
+    def nested(self, depth, in_loop, ret, no_div=False):
         """A construct that completes normally although blocks inside it may diverge."""
         r = self.r
         k = r.choice(["if", "while", "for", "loop-break", "match-nodefault", "block", "if-else-one"])
@@ -435,8 +441,11 @@ class OptGen:
                 ind(self.body(depth, True, ret)) + ["}"]
         if k == "match-nodefault":
             # a match without default completes normally when no arm matches
-            return [f"match k {{ {r.choice([0, 1, 2])} => {{"] + ind(self.body(depth, in_loop, ret, force_div=self.caps.get("match_never", False) and r.random() < 0.5)) + ["} }"]
-        return ["{"] + ind(self.body(depth, in_loop, ret)) + ["};"]
+            # (while A5 is open the analyzer types it `never` if its arms diverge: then the arm must not)
+            ok = self.caps.get("match_never", False)
+            return [f"match k {{ {r.choice([0, 1, 2])} => {{"] + ind(self.body(depth, in_loop, ret, force_div=ok and r.random() < 0.5, no_div=not ok)) + ["} };"]
+        # a block statement diverges if its body does
+        return ["{"] + ind(self.body(depth, in_loop, ret, no_div=no_div)) + ["};"]
 
     def program(self):
         r = self.r
